@@ -166,6 +166,14 @@ def main():
         tokens += ["F"]
         scns.append(iso_text("held%d" % k, progs, tokens))
         metas.append(progs)
+    # one open wiring built twice (Wiring::snapshot, the interactive flow): both builders, run one after the other or at the
+    # same time, behave like the program built once and run alone
+    for k in range(16 if quick else 160):
+        pool = pools[k % len(pools)]
+        progs = [pool[k % 7]]
+        tokens = ["N0"] + (["X0", "F", "W0", "X1", "F"] if k % 2 == 0 else ["Y0", "Y1", "F"])
+        scns.append(iso_text("snap%d" % k, progs, tokens))
+        metas.append(progs)
     # first use: many executors created at the same instant in a fresh process (lazily initialised process-wide state)
     first_use = []
     for k in range(40 if quick else 400):
